@@ -150,10 +150,26 @@ def Cls.typeName : Cls → String
   | .timeRev => "qupulse.pulses.time_reversal_pulse_template.TimeReversalPulseTemplate"
   | .abstr => "qupulse.pulses.abstract_pulse_template.AbstractPulseTemplate"
 
-/-- `DeserializationCallbackFinder.__getitem__` (the `qctoolkit.` alias is resolved first) -/
+/-- the type identifiers written by the predecessor package: `qctoolkit.` instead of `qupulse.` -/
+def Cls.legacyTypeName : Cls → String
+  | .table => "qctoolkit.pulses.table_pulse_template.TablePulseTemplate"
+  | .point => "qctoolkit.pulses.point_pulse_template.PointPulseTemplate"
+  | .func => "qctoolkit.pulses.function_pulse_template.FunctionPulseTemplate"
+  | .const => "qctoolkit.pulses.constant_pulse_template.ConstantPulseTemplate"
+  | .seq => "qctoolkit.pulses.sequence_pulse_template.SequencePulseTemplate"
+  | .rep => "qctoolkit.pulses.repetition_pulse_template.RepetitionPulseTemplate"
+  | .forLoop => "qctoolkit.pulses.loop_pulse_template.ForLoopPulseTemplate"
+  | .mapping => "qctoolkit.pulses.mapping_pulse_template.MappingPulseTemplate"
+  | .amc => "qctoolkit.pulses.multi_channel_pulse_template.AtomicMultiChannelPulseTemplate"
+  | .par => "qctoolkit.pulses.multi_channel_pulse_template.ParallelChannelPulseTemplate"
+  | .arithAtomic => "qctoolkit.pulses.arithmetic_pulse_template.ArithmeticAtomicPulseTemplate"
+  | .arith => "qctoolkit.pulses.arithmetic_pulse_template.ArithmeticPulseTemplate"
+  | .timeRev => "qctoolkit.pulses.time_reversal_pulse_template.TimeReversalPulseTemplate"
+  | .abstr => "qctoolkit.pulses.abstract_pulse_template.AbstractPulseTemplate"
+
+/-- `DeserializationCallbackFinder.__getitem__` (with the `qctoolkit.` → `qupulse.` alias) -/
 def Cls.ofTypeName (s : String) : Option Cls :=
-  let s := if s.startsWith "qctoolkit." then "qupulse." ++ (s.drop 10).toString else s
-  Cls.all.find? (fun c => c.typeName = s)
+  Cls.all.find? (fun c => c.typeName = s || c.legacyTypeName = s)
 
 inductive Shape where
   | data        -- plain JSON data
@@ -769,7 +785,7 @@ def Item.wfL : List Item → Bool
   | [] => true
   | .data _ j :: rest => j.plain && Item.wfL rest
   | .child _ t :: rest => t.wf && Item.wfL rest
-  | .children _ ts :: rest => T.wfL ts && Item.wfL rest
+  | .children _ ts :: rest => !ts.isEmpty && T.wfL ts && Item.wfL rest
 def T.wfL : List T → Bool
   | [] => true
   | t :: ts => t.wf && T.wfL ts
